@@ -40,9 +40,10 @@ pub enum Spacing {
     Clustered,
     Random,
     MixedMag,
+    IndexLike,
 }
-pub const SPACINGS: [Spacing; 6] =
-    [Spacing::Unit, Spacing::Uniform, Spacing::Geometric, Spacing::Clustered, Spacing::Random, Spacing::MixedMag];
+pub const SPACINGS: [Spacing; 7] =
+    [Spacing::Unit, Spacing::Uniform, Spacing::Geometric, Spacing::Clustered, Spacing::Random, Spacing::MixedMag, Spacing::IndexLike];
 
 /// strictly increasing axis of n >= 1 points.  `f32safe`: every knot exact in f32.
 /// Magnitudes stay within 2^-60 .. 2^60 (MixedMag), far from overflow (DESIGN.md S1).
@@ -105,6 +106,22 @@ pub fn gen_axis(rng: &mut Rng, n: usize, sp: Spacing, f32safe: bool) -> Vec<f64>
                 }
             }
         }
+        Spacing::IndexLike => {
+            // looks like the default index axis at both ends (0 and len-1) but has arbitrary interior knots
+            let last = (n.max(1) - 1) as f64;
+            let mut inner: Vec<f64> = vec![];
+            let mut tries = 0;
+            while inner.len() + 2 < n && tries < 1000 {
+                tries += 1;
+                let c = rng.range(1, ((n - 1) * 16 - 1).max(1) as i64) as f64 / 16.0;
+                if c > 0.0 && c < last && !inner.contains(&c) { inner.push(c); }
+            }
+            inner.sort_by(|a, b| a.partial_cmp(b).unwrap());
+            v.push(0.0);
+            if n >= 2 { v.extend(inner); v.push(last); }
+            // (if the interior could not be filled the axis is shorter than asked for; fix up)
+            while v.len() < n { let l = *v.last().unwrap(); v.push(l + 1.0); }
+        }
         Spacing::Random => {
             let mut cur = rng.range(-64, 64) as f64 * 0.125;
             for _ in 0..n {
@@ -158,7 +175,8 @@ pub fn gen_axis(rng: &mut Rng, n: usize, sp: Spacing, f32safe: bool) -> Vec<f64>
 
 /// axis suitable for the spline: mesh ratio <= 2^6, moderate magnitudes
 pub fn gen_spline_axis(rng: &mut Rng, n: usize) -> (Vec<f64>, &'static str) {
-    match rng.below(5) {
+    match rng.below(6) {
+        5 => (gen_axis(rng, n, Spacing::IndexLike, true), "index-like-ends"),
         0 => (gen_axis(rng, n, Spacing::Unit, true), "unit"),
         1 => (gen_axis(rng, n, Spacing::Uniform, true), "uniform"),
         2 => (gen_axis(rng, n, Spacing::Random, true), "random"),
